@@ -195,6 +195,12 @@ fn part_a(rep: &mut Report, seed: u64, index: u64) {
                 Err(e) => {
                     rep.count(&format!("a_get_err:{:#x}", status_byte_ref(&e)));
                     rep.nontrivial(fnv_str(&key));
+                    // "no credentials" is the answer to a lookup that listed none: when the store listed a
+                    // credential for the request, the first one listed is selected
+                    let listed: usize = rig.log.snapshot().iter().filter_map(|e| if let Ev::Find { result: Ok(l), .. } = &e.ev { Some(l.len()) } else { None }).sum();
+                    if status_byte_ref(&e) == 0x2E && listed > 0 {
+                        rep.violate("a: no-credentials answered although the store listed a credential for the request", format!("{listed} listed; silent request: {silent}"), case.clone());
+                    }
                 }
             }
         } else {
